@@ -4,6 +4,7 @@ package main
 // compiled with Bug.Compile; the snapshot is observed field by field.
 
 import (
+	"encoding/base64"
 	"encoding/json"
 	"fmt"
 	"sort"
@@ -32,7 +33,24 @@ type c10Op struct {
 	KV    [][2]int  `json:"kv,omitempty"`
 	St    int       `json:"st,omitempty"`
 	Own   [][2]int  `json:"own,omitempty"` // metadata the operation carries itself (set before it gets an id)
+	Raw   *c10Raw   `json:"raw,omitempty"` // (add comment) exact content: the operation id is a function of it
 }
+
+// c10Raw pins everything an add-comment operation's id is the hash of (type, time, nonce, message, no files, no own
+// metadata), so that an input can carry operations whose ids are known in advance: two such operations that share
+// the first 14 characters of their ids come from a birthday search (notes/audit/C10/collide/main.go).
+type c10Raw struct {
+	Time  int64  `json:"t"`
+	Msg   string `json:"m"`
+	Nonce string `json:"n"` // base64, 20..64 bytes
+}
+
+// c10CollidingComments: pairs of add-comment contents whose operation ids share their first 14 characters (and differ
+// afterwards). Any client can produce such operations; a combined id cannot tell them apart.
+var c10CollidingComments = [][2]c10Raw{
+	{{1700000000, "c", "YXVkaXQtQzEwLW5vbmNlIQAAAAArXtGc"}, {1700000000, "c", "YXVkaXQtQzEwLW5vbmNlIQAAAAA/WbsT"}},
+}
+
 type c10Input struct {
 	Ops []c10Op `json:"ops"`
 }
@@ -115,9 +133,63 @@ func (c10Driver) Gen(r *Rand, tier string) []json.RawMessage {
 		for i := 1; i < l; i++ {
 			in.Ops = append(in.Ops, genC10Op(r, i, small))
 		}
+		if c%8 == 3 {
+			in.Ops = plantC10Collision(r, in.Ops, small)
+		}
 		res = append(res, mustJSON(in))
 	}
 	return res
+}
+
+// plantC10Collision inserts two add-comment operations whose ids share their first 14 characters at random places
+// (in either order, possibly with operations in between), then edits that name one or the other by its full id,
+// interleaved with ordinary operations; targets by index are shifted accordingly.
+func plantC10Collision(r *Rand, ops []c10Op, small bool) []c10Op {
+	if len(ops) > 12 {
+		ops = ops[:12]
+	}
+	pair := c10CollidingComments[r.Intn(len(c10CollidingComments))]
+	if r.Bool() {
+		pair[0], pair[1] = pair[1], pair[0]
+	}
+	p1 := 1 + r.Intn(len(ops))       // inserted before ops[p1] (at the end when p1 == len(ops))
+	p2 := p1 + r.Intn(len(ops)-p1+1) // the second one at or after the first
+	var out []c10Op
+	var at [2]int
+	newIdx := make([]int, len(ops))
+	for i := 0; i <= len(ops); i++ {
+		if i == p1 {
+			at[0] = len(out)
+			out = append(out, c10Op{K: "comment", A: r.Intn(2), Raw: &pair[0]})
+		}
+		if i == p2 {
+			at[1] = len(out)
+			out = append(out, c10Op{K: "comment", A: r.Intn(2), Raw: &pair[1]})
+		}
+		if i == len(ops) {
+			break
+		}
+		o := ops[i]
+		newIdx[i] = len(out)
+		if (o.K == "edit" || o.K == "meta") && o.T.Kind != "unknown" && i > 0 {
+			o.T.Idx = newIdx[o.T.Idx%i] // targets name earlier operations: follow them to their new place
+		}
+		out = append(out, o)
+	}
+	for j, n := 0, r.Range(1, 4); j < n; j++ {
+		w := at[r.Intn(2)]
+		if j == 0 {
+			w = at[1] // at least one edit names the later of the two
+		}
+		if r.Chance(1, 4) {
+			out = append(out, c10Op{K: "meta", A: r.Intn(2), T: c10Target{Kind: "op", Idx: w}, KV: [][2]int{{r.Intn(3), r.Intn(4)}}})
+		}
+		out = append(out, c10Op{K: "edit", A: r.Intn(3), T: c10Target{Kind: "op", Idx: w}, Txt: 1 + r.Intn(5), Files: []int{r.Intn(4)}[:r.Intn(2)]})
+		if r.Chance(1, 3) {
+			out = append(out, genC10Op(r, len(out), small))
+		}
+	}
+	return out
 }
 
 var c10Repo = repository.NewMockRepo()
@@ -224,6 +296,7 @@ func (c10Driver) Run(raw json.RawMessage) Case {
 		return ls
 	}
 	incr := true
+	rawMsg := map[int]string{}
 	var snapIncr *bug.Snapshot
 	for i, o := range in.Ops {
 		au := c10Authors[((o.A%3)+3)%3]
@@ -239,7 +312,21 @@ func (c10Driver) Run(raw json.RawMessage) Case {
 			}
 			op = bug.NewCreateOp(au, t, title, text(o.Txt+1), files(o.Files))
 		case "comment":
-			op = bug.NewAddCommentOp(au, t, text(o.Txt), files(o.Files))
+			if o.Raw != nil {
+				nonce, err := base64.StdEncoding.DecodeString(o.Raw.Nonce)
+				if err != nil || o.Raw.Msg == "" {
+					return Case{Skip: "bad raw comment"}
+				}
+				c := bug.NewAddCommentOp(au, o.Raw.Time, o.Raw.Msg, nil)
+				c.Nonce = nonce
+				if err := c.Validate(); err != nil {
+					return Case{Skip: "invalid raw comment: " + err.Error()}
+				}
+				op = c
+				rawMsg[i] = o.Raw.Msg
+			} else {
+				op = bug.NewAddCommentOp(au, t, text(o.Txt), files(o.Files))
+			}
 		case "edit":
 			tg := mkTarget(o.T, i)
 			targets[i] = string(tg)
@@ -269,12 +356,20 @@ func (c10Driver) Run(raw json.RawMessage) Case {
 		}
 		tags["op:"+o.K] = true
 		for _, p := range o.Own {
+			if o.Raw != nil {
+				break // the content, hence the id, is pinned
+			}
 			op.SetMetadata(fmt.Sprintf("key%d", p[0]), fmt.Sprintf("val%d", p[1]))
 			tags["own-metadata"] = true
 		}
 		b.Append(op)
 		ops = append(ops, op)
 		ids = append(ids, string(op.Id()))
+		for j := 0; j < i; j++ {
+			if ids[j][:14] == ids[i][:14] && ids[j] != ids[i] {
+				tags["op-ids-share-14"] = true
+			}
+		}
 		// incremental application, the way cache.withSnapshot maintains its snapshot
 		if snapIncr == nil {
 			snapIncr = b.Compile()
@@ -390,7 +485,8 @@ func (c10Driver) Run(raw json.RawMessage) Case {
 				}
 			}
 		}
-		// a comment's timeline entry shows the comment as it is now
+		// a comment's timeline entry shows the comment as it is now: the k-th comment item belongs to the k-th comment
+		k := 0
 		for _, it := range s.Timeline {
 			var msg string
 			var files []repository.Hash
@@ -402,19 +498,21 @@ func (c10Driver) Run(raw json.RawMessage) Case {
 			default:
 				continue
 			}
-			for _, c := range s.Comments {
-				if c.CombinedId() != it.CombinedId() {
-					continue
-				}
-				same := c.Message == msg && len(c.Files) == len(files)
-				for k := range files {
-					same = same && k < len(c.Files) && c.Files[k] == files[k]
-				}
-				if !same {
-					return "a comment's timeline entry does not show the comment's current text and files"
-				}
-				break
+			if k >= len(s.Comments) {
+				return "more comment items in the timeline than comments"
 			}
+			c := s.Comments[k]
+			k++
+			same := c.CombinedId() == it.CombinedId() && c.Message == msg && len(c.Files) == len(files)
+			for j := range files {
+				same = same && j < len(c.Files) && c.Files[j] == files[j]
+			}
+			if !same {
+				return "a comment's timeline entry does not show the comment's current text and files"
+			}
+		}
+		if k != len(s.Comments) {
+			return "fewer comment items in the timeline than comments"
 		}
 		if _, err := s.SearchTimelineItem(entity.CombinedId("none")); err == nil {
 			return "SearchTimelineItem finds an unknown id"
@@ -507,7 +605,11 @@ func (c10Driver) Run(raw json.RawMessage) Case {
 			}
 			mops = append(mops, fmt.Sprintf("OCreate %s %d %d %d %s", id, au, txt(title), txt(text(o.Txt+1)), fl(o.Files)))
 		case "comment":
-			mops = append(mops, fmt.Sprintf("OAddComment %s %d %d %s", id, au, txt(text(o.Txt)), fl(o.Files)))
+			if m, ok := rawMsg[i]; ok {
+				mops = append(mops, fmt.Sprintf("OAddComment %s %d %d %s", id, au, txt(m), fl(nil)))
+			} else {
+				mops = append(mops, fmt.Sprintf("OAddComment %s %d %d %s", id, au, txt(text(o.Txt)), fl(o.Files)))
+			}
 		case "edit":
 			mops = append(mops, fmt.Sprintf("OEditComment %s %d %s %d %s", id, au, opid(targets[i]), txt(text(o.Txt)), fl(o.Files)))
 		case "title":
@@ -542,16 +644,22 @@ func (c10Driver) Run(raw json.RawMessage) Case {
 	}
 	// observed snapshot as a Coq term
 	var coms []string
-	for _, c := range s1.Comments {
+	for ci, c := range s1.Comments {
 		var fs []string
 		for _, f := range c.Files {
 			fs = append(fs, fileN(f))
 		}
-		hist := 0
+		// the k-th comment item of the timeline belongs to the k-th comment (combined ids cannot tell two operations
+		// apart that share 14 characters)
+		hist, k := 0, 0
 		for _, it := range s1.Timeline {
-			if it.Comment && cidHead[it.CID] == hr.m[c.Target[:14]] {
+			if !it.Comment {
+				continue
+			}
+			if k == ci {
 				hist = it.Hist - 1
 			}
+			k++
 		}
 		coms = append(coms, fmt.Sprintf("{| c_id := %s; c_author := %d; c_msg := %d; c_files := %s; c_edits := %d |}", opid(c.Target), c.Author, txt(c.Msg), nlist(fs), hist))
 	}
@@ -602,6 +710,9 @@ func (c10Driver) Run(raw json.RawMessage) Case {
 		// a Go map: a repeated key keeps its last value
 		kv := map[int]int{}
 		for _, p := range o.Own {
+			if o.Raw != nil {
+				break
+			}
 			kv[p[0]] = p[1]
 		}
 		var ks []int
